@@ -136,6 +136,85 @@ Proof.
 Qed.
 
 (* ---------------------------------------------------------------------------------------------- *)
+(* a pass with ARBITRARY re-entrant slot bodies (they may emit deferred signals of this evaluator, disconnect, destroy signals,
+   request nested passes ...): [runs q l] says that the part l of the trace (newest first) written by the pass consists of the
+   pass's own invocation of each element of q, once each and in queue order, each followed by whatever its body wrote *)
+Inductive runs : list (handle * invocation) -> list event -> Prop :=
+| runs_nil : runs [] []
+| runs_cons p q body l : runs q l -> runs (p :: q) (l ++ body ++ [pass_event p]).
+
+Lemma skipn_nth_cons {X} (l : list X) pos x : nth_error l pos = Some x -> skipn pos l = x :: skipn (S pos) l.
+Proof.
+  revert pos; induction l as [|a t IH]; intros [|p] Hn; cbn in *; try discriminate.
+  - inversion Hn; reflexivity.
+  - apply IH; assumption.
+Qed.
+
+Lemma winv_log ev w : winv w -> winv (log ev w).
+Proof. intros H i m Hi. exact (H i m Hi). Qed.
+
+Lemma pass_loop_reentrant R e : good R -> forall fuel w pos s w',
+  winv w -> lookup (w_evs w) e = Some s -> e_evaluating s = true ->
+  pass_loop R fuel w e pos = (w', None) ->
+  winv w' /\ exists s' extra l,
+    lookup (w_evs w') e = Some s' /\ e_evaluating s' = true /\ e_alive s' = e_alive s /\
+    e_queue s' = e_queue s ++ extra /\ w_trace w' = l ++ w_trace w /\ runs (skipn pos (e_queue s')) l.
+Proof.
+  intros HR. induction fuel as [|f IH]; intros w pos s w' Hw He Hev H; [discriminate H|].
+  cbn [pass_loop] in H. rewrite He in H.
+  destruct (nth_error (e_queue s) pos) as [[h v]|] eqn:Hn.
+  - unfold invoke_slot in H.
+    set (ev := EvSlot (handle_src h) false (v_label v) (v_args v)) in *.
+    pose proof (HR (log ev w) (v_script v) (winv_log ev w Hw)) as [Hw1 L1].
+    destruct (R (log ev w) (v_script v)) as [w1 [x|]] eqn:ER; [discriminate H|]. cbn [fst] in Hw1, L1.
+    destruct (wle_evs _ _ _ _ _ L1 e s He) as (s1 & He1 & K1). destruct (K1 I) as (Kev & Kq). destruct (Kq Hev) as (Kal & l1 & Kq1).
+    destruct (wle_trace _ _ _ _ _ L1) as (lb & Ht1 & _).
+    assert (Hev1 : e_evaluating s1 = true) by congruence.
+    destruct (IH w1 (S pos) s1 w' Hw1 He1 Hev1 H) as (Hw' & s' & extra & l & He' & Hev' & Hal' & Hq' & Ht' & Hr).
+    split; [exact Hw'|]. exists s', (l1 ++ extra), (l ++ lb ++ [ev]).
+    split; [exact He'|]. split; [exact Hev'|]. split; [congruence|].
+    split; [rewrite Hq', Kq1, app_assoc; reflexivity|].
+    split; [rewrite Ht', Ht1; cbn [log w_trace]; rewrite <- !app_assoc; reflexivity|].
+    assert (Hn' : nth_error (e_queue s') pos = Some (h, v)).
+    { rewrite Hq', Kq1, <- app_assoc. rewrite nth_error_app1; [exact Hn|]. apply nth_error_Some; congruence. }
+    rewrite (skipn_nth_cons _ _ _ Hn'). exact (runs_cons (h, v) _ lb l Hr).
+  - inversion H; subst w'. split; [exact Hw|]. exists s, [], [].
+    split; [exact He|]. split; [exact Hev|]. split; [reflexivity|]. split; [rewrite app_nil_r; reflexivity|]. split; [reflexivity|].
+    apply nth_error_None in Hn. rewrite skipn_all2 by exact Hn. constructor.
+Qed.
+
+(* the whole pass: it runs the queue as it stood at the start AND everything the bodies appended meanwhile (extra), each
+   element once, in queue order, and ends with the queue empty and the flag down - so nothing of it can run again *)
+Theorem pass_reentrant pf R w e s w' :
+  good R -> winv w -> lookup (w_evs w) e = Some s -> e_alive s = true -> e_evaluating s = false ->
+  eval_pass pf R w e = (w', None) ->
+  exists extra l, w_trace w' = l ++ w_trace w /\ runs (e_queue s ++ extra) l /\
+                  lookup (w_evs w') e = Some {| e_alive := true; e_queue := []; e_evaluating := false |}.
+Proof.
+  intros HR Hw He Hal Hev H. unfold eval_pass in H. rewrite He, Hal, Hev in H. cbn [negb] in H.
+  set (s1 := {| e_alive := true; e_queue := e_queue s; e_evaluating := true |}) in *.
+  set (w1 := set_evs w (bind_key (w_evs w) e s1)) in *.
+  assert (He1 : lookup (w_evs w1) e = Some s1) by (unfold w1; cbn [set_evs w_evs]; apply lookup_bind_same).
+  assert (Hw1 : winv w1) by (intros i m Hi; exact (Hw i m Hi)).
+  destruct (pass_loop R pf w1 e 0) as [w2 [x|]] eqn:EL; [discriminate H|]. inversion H; subst w'.
+  destruct (pass_loop_reentrant R e HR pf w1 0 s1 w2 Hw1 He1 eq_refl EL) as (_ & s' & extra & l & He' & Hev' & Hal' & Hq' & Ht' & Hr).
+  exists extra, l. unfold ev_finish. rewrite He'. cbn [set_evs w_trace w_evs].
+  split; [exact Ht'|]. split; [cbn [skipn] in Hr; rewrite Hq' in Hr; exact Hr|].
+  rewrite lookup_bind_same. cbn in Hal'. rewrite Hal'. reflexivity.
+Qed.
+
+(* [runs] pins the pass's own invocations down: as many as queue elements *)
+Lemma runs_length q l : runs q l -> length q <= length l.
+Proof. induction 1 as [|p q body l _ IH]; cbn; [lia|]. rewrite !app_length. cbn. lia. Qed.
+
+(* for bodies that write nothing [runs q l] is the FIFO statement of pass_runs_queue_once *)
+Lemma runs_quiet q : runs q (rev (map pass_event q)).
+Proof.
+  induction q as [|p q IH]; cbn [map rev]; [constructor|].
+  change (rev (map pass_event q) ++ [pass_event p]) with (rev (map pass_event q) ++ [] ++ [pass_event p]). constructor. exact IH.
+Qed.
+
+(* ---------------------------------------------------------------------------------------------- *)
 (* C11: moving a signal does not touch any Impl; the destination now holds the source's Impl, the source none *)
 
 Theorem sig_move_ctor pf R w src dst x :
